@@ -270,8 +270,11 @@ class Cell(NullCell):
                  root_index
 
         if has_idx:
+            # index entry = offset of the END of the cell in the cell data (doubled with cache bits)
+            end_offset = 0
             for l in serialized_cells_len:
-                result += l.to_bytes(payload_len, 'big')
+                end_offset += l
+                result += (end_offset * 2 if has_cache_bits else end_offset).to_bytes(payload_len, 'big')
         result += payload
         if hash_crc32:
             result += crc32c(result)
